@@ -117,6 +117,30 @@ claim("C10", "exploration",
       "TLA+ transcriptions + TLC exhaustive checking; every model state replayed as a case across all real representations",
       "DESIGN.md 4/C10", "sets")
 
+claim("C07", "model_checking",
+      "specs/Wire/Handshake.tla models one connection with client and server as phase automata at byte level (real offsets of the 262-byte SOCKS5 "
+      "scratch buffer, UNAME overwritten by PASSWD, bufio read-ahead of the HTTP server and client, ss-none), one action per blocking read, the "
+      "transport delivering arbitrary segmentations; TLC checks Faithful/AuthGate/ReplyMatches/Transparent/FragInsensitive/StreamAligned "
+      "(two design mutants must be refuted). Every edge of the emitted state graphs is replayed inside testing/synctest in three modes: real "
+      "server with client bytes from the model, real client against a server scripted from the model, real client against real server, over a "
+      "scripted fragmenting conn; extracted address/user, the auth gate, reply per dial result (the compiled table is compared for all 256 "
+      "codes), client outcome and post-handshake stream contents are compared.",
+      "HTTP text parsing is net/http's (heads are line units); TLS proxy variants, early data before the 2xx and half-close are out; quick covers "
+      "one of six variants per seed.",
+      "TLA+ spec + TLC exhaustive model checking; full state-graph replay over a scripted fragmenting connection against the real servers and clients",
+      "DESIGN.md 4/C07", "handshake")
+claim("C15", "model_checking",
+      "specs/Pipe/Pipe.tla has one action per atomic step of netio/pipe.go (write mutex, rendezvous send and count-back, done channels with "
+      "store-error-then-close, deadline timers with replaced cancel channels); TLC checks NoPanic/AtomicWrites/CountIsConsumed/WriteResult/"
+      "ClosedForever/ReverseUnaffected/DeadlineUnblocks/BlockedLegitimately and, under weak fairness, EventuallyReturns. Sequential-start "
+      "schedules are replayed with one goroutine per call and parked-goroutine detection; free-running histories from 2-4 goroutines per end and "
+      "the replays are judged by direct oracles and by TLC trace validation against TracePipe.tla (unlogged steps inferred, high-water-mark "
+      "postcondition); race probes hit the store-then-close and timer-vs-set windows.",
+      "Exhaustive claims cover at most 4 calls from small alphabets; the replay driver forces sequential-start schedules only (racing starts come "
+      "from free-running histories and probes); WriteTo sinks are assumed not to block; a deadline that fires too early is not detected.",
+      "TLA+ spec + TLC safety/liveness checking; schedule replay with parked-goroutine detection and TLC trace validation of recorded histories",
+      "DESIGN.md 4/C15", "pipe")
+
 NA = {}
 
 def main():
